@@ -354,7 +354,7 @@ pub fn run_case(case: &Case, mode: &Mode) -> CaseReport {
         rep.class("plans_sampled");
     }
     for bad in plans {
-        let plan = Plan { bad, panic_at: None, gates: vec![] };
+        let plan = Plan { bad, panic_at: None, gates: vec![], deep: false };
         let exp = model::interpret(&prog, &plan);
         let rr = run_plain(case, &plan);
         rep.runs += 1;
